@@ -229,7 +229,7 @@ CHECKS = {
         '(parse_pairs) the real Parser::parse on pairs of lexem vectors (optional select, commas, bracket kind, letter case of `group`, option aliases, operator aliases, '
         '`not like` vs `notlike`): structurally equal queries.',
    note=TRUST + 'The two lexer families execute the lexer MIR on concrete words / queries (no symbolic input there: a finite list, stated in the evidence); invariance under every '
-        'whitespace split point set is covered for the listed queries (lexer_splits: <= 5 / 14 free positions, every search-root word a shell word of its own, since fselect takes the '
+        'whitespace split point set is covered for the listed queries (lexer_splits: <= 5 / 8 free positions, every search-root word a shell word of its own, since fselect takes the '
         'rest of a shell word as the root path) and every case mask only for the listed spellings. DATE_ALIKE_REGEX.captures evaluated with Python re on concrete text.',
    technique=TECH),
 }
